@@ -13,19 +13,21 @@ struct Case {
         std::string op; // e.g. "keyexp128/sse", "cbc_dec192/avx", "gcm128/sse:enc", "gcm256/isal:update_dec_nt", "xts128/avx:enc:raw"
         uint64_t seed = 1, len = 0, aad_len = 0, pre_len = 0; // pre_len: bytes fed through update before the observed call (stream ops)
         int tag_len = 16;
+        uint32_t pl = 0;  // placement bits per buffer class (0 = end-flush against a guard page, 1 = start-flush): in,out,aad,iv,tag,key,keydata,ctx
+        uint32_t sh = 0;  // 6-bit shift per unaligned buffer class (bytes away from the flush position)
 };
 static inline J to_json(const Case &c)
 {
         J j = J::obj();
         j.set("op", c.op).set("seed", (unsigned long long) c.seed).set("len", (unsigned long long) c.len).set("aad_len", (unsigned long long) c.aad_len);
-        j.set("pre_len", (unsigned long long) c.pre_len).set("tag_len", c.tag_len);
+        j.set("pre_len", (unsigned long long) c.pre_len).set("tag_len", c.tag_len).set("pl", c.pl).set("sh", c.sh);
         return j;
 }
 static inline Case from_json(const J &j)
 {
         Case c;
         c.op = j.at("op").s;
-        c.seed = j.unum("seed", 1); c.len = j.unum("len", 0); c.aad_len = j.unum("aad_len", 0); c.pre_len = j.unum("pre_len", 0); c.tag_len = j.num("tag_len", 16);
+        c.seed = j.unum("seed", 1); c.len = j.unum("len", 0); c.aad_len = j.unum("aad_len", 0); c.pre_len = j.unum("pre_len", 0); c.tag_len = j.num("tag_len", 16); c.pl = j.unum("pl", 0); c.sh = j.unum("sh", 0);
         return c;
 }
 
@@ -146,6 +148,8 @@ static inline Case gen_case(const Ops &O)
                 if (nt) c.pre_len = c.pre_len / 64 * 64;
                 c.tag_len = pick<int>({ 16, 12, 8 });
         }
+        c.pl = rng<uint32_t>(0, 255) & (coin(1, 2) ? 0xffu : 0u);
+        c.sh = coin(1, 3) ? (rng<uint32_t>(0, 0x7fffffffu) | 0x80000000u) : 0;
         return c;
 }
 
@@ -159,6 +163,8 @@ struct Built {
         // "later behaviour" of the objects the call produced (its results are appended to outs by the continuation)
         std::vector<std::pair<uint8_t *, size_t>> outs;
         std::function<bool()> continuation;
+        std::vector<uint8_t *> inputs; // buffers the observed call may only read (C08 maps them read-only)
+        uint64_t data_len = 0;
 };
 
 // returns 0 = call prepared, 1 = skip (entry absent), 2 = a failure was reported, 3 = a known finding was hit (suppressed)
@@ -173,6 +179,9 @@ static inline int build(const Case &c, Ops &O, guard::Arena &A, Built &B, pbt::C
         auto &g_gcm = O.gcm;
         auto &g_xts = O.xts;
         auto failx = [&](const std::string &k, const std::string &m) { return ctx.fail(k + "|" + c.op, c.op + ": " + m); };
+        enum { B_IN = 0, B_OUT, B_AAD, B_IV, B_TAG, B_KEY, B_KD, B_CTX };
+        auto PL = [&](int k) { return (guard::Place) ((c.pl >> k) & 1); };
+        auto SH = [&](int k) { return (size_t) ((c.sh >> (4 * k)) & 15) * ((c.sh >> 31) & 1 ? 1 : 0); };
         std::string family = c.op.substr(0, c.op.find(':'));
         std::string sub = c.op.find(':') == std::string::npos ? "" : c.op.substr(c.op.find(':') + 1);
         std::string &exitclass = B.exitclass;
@@ -187,20 +196,26 @@ static inline int build(const Case &c, Ops &O, guard::Arena &A, Built &B, pbt::C
                 ref::Aes ra(key.data(), e->bits);
                 fn = e->fn;
                 if (e->op == ae::cbc::OP_KEYEXP) {
-                        uint8_t *kb = A.alloc("key", key.size(), 1, guard::END);
+                        uint8_t *kb = A.alloc("key", key.size(), 1, PL(B_KEY), -1, SH(B_KEY));
                         memcpy(kb, key.data(), key.size());
-                        uint8_t *enc = A.alloc("enc", 16 * 15, 16, guard::END, 1), *dec = A.alloc("dec", 16 * 15, 16, guard::END, 2);
+                        size_t ksz = 16 * (e->bits / 32 + 7);
+                        uint8_t *enc = A.alloc("enc", ksz, 1, PL(B_OUT), 1, SH(B_OUT)), *dec = A.alloc("dec", ksz, 1, PL(B_TAG), 2, SH(B_TAG));
+                        B.inputs.push_back(kb);
                         args[0] = (uint64_t) kb; args[1] = (uint64_t) enc; args[2] = (uint64_t) dec;
                         nargs = 3;
                         exitclass = "keyexp";
-                        B.outs.emplace_back(enc, 16 * (e->bits / 32 + 7));
-                        B.outs.emplace_back(dec, 16 * (e->bits / 32 + 7));
+                        B.outs.emplace_back(enc, ksz);
+                        B.outs.emplace_back(dec, ksz);
                 } else {
                         uint64_t len = 16 * (c.len ? c.len : 1);
                         auto sched = e->op == ae::cbc::OP_DEC ? ra.dec_schedule() : ra.enc_schedule();
-                        uint8_t *keys = A.alloc("keys", sched.size(), 16, guard::END);
+                        uint8_t *keys = A.alloc("keys", sched.size(), 16, PL(B_KEY));
+                        B.inputs.push_back(keys);
                         memcpy(keys, sched.data(), sched.size());
-                        uint8_t *iv = A.alloc("iv", 16, 16, guard::END), *in = A.alloc("in", len, 1, guard::END), *out = A.alloc("out", len, 1, guard::END, 5);
+                        uint8_t *iv = A.alloc("iv", 16, 16, PL(B_IV)), *in = A.alloc("in", len, 1, PL(B_IN), -1, SH(B_IN)), *out = A.alloc("out", len, 1, PL(B_OUT), 5, SH(B_OUT));
+                        B.inputs.push_back(iv);
+                        B.inputs.push_back(in);
+                        B.data_len = len;
                         pbt::expand(c.seed + 7, iv, 16);
                         pbt::expand(c.seed + 8, in, len);
                         B.outs.emplace_back(out, len);
@@ -216,15 +231,16 @@ static inline int build(const Case &c, Ops &O, guard::Arena &A, Built &B, pbt::C
                 std::vector<uint8_t> key = pbt::expandv(c.seed, g->bits / 8), iv = pbt::expandv(c.seed + 1, 12), aad = pbt::expandv(c.seed + 2, c.aad_len);
                 add_key_material(S, key.data(), g->bits);
                 add_ghash_material(S, key.data(), g->bits);
-                uint8_t *kd = A.alloc("key_data", sizeof(isal_gcm_key_data), 16, guard::END, 0x11);
-                uint8_t *cd = A.alloc("context_data", sizeof(isal_gcm_context_data), 16, guard::END, 0x22);
-                uint8_t *kb = A.alloc("key", key.size(), 1, guard::END);
+                uint8_t *kd = A.alloc("key_data", sizeof(isal_gcm_key_data), 16, PL(B_KD), 0x11);
+                uint8_t *cd = A.alloc("context_data", sizeof(isal_gcm_context_data), 16, PL(B_CTX), 0x22);
+                uint8_t *kb = A.alloc("key", key.size(), 1, PL(B_KEY), -1, SH(B_KEY));
                 memcpy(kb, key.data(), key.size());
-                uint8_t *ivb = A.alloc("iv", 12, 1, guard::END);
+                uint8_t *ivb = A.alloc("iv", 12, 1, PL(B_IV), -1, SH(B_IV));
                 memcpy(ivb, iv.data(), 12);
-                uint8_t *ab = A.alloc("aad", c.aad_len, 1, guard::END);
+                uint8_t *ab = A.alloc("aad", c.aad_len, 1, PL(B_AAD), -1, SH(B_AAD));
                 memcpy(ab, aad.data(), c.aad_len);
-                uint8_t *tag = A.alloc("tag", 16, 1, guard::END, 9);
+                bool tag_observed = sub.compare(0, 8, "finalize") == 0 || sub == "enc" || sub == "dec" || sub == "enc_nt" || sub == "dec_nt";
+                uint8_t *tag = A.alloc("tag", tag_observed ? (size_t) c.tag_len : 16, 1, PL(B_TAG), 9, SH(B_TAG));
                 bool observed_is_pre = (sub == "pre" || sub == "precomp");
                 if (!observed_is_pre || sub == "precomp") {
                         // prepare key data (for "precomp" only the expanded keys are needed before the observed call)
@@ -240,9 +256,15 @@ static inline int build(const Case &c, Ops &O, guard::Arena &A, Built &B, pbt::C
                 }
                 uint64_t plen = c.pre_len;
                 std::vector<uint8_t> data = pbt::expandv(c.seed + 3, plen + c.len);
-                uint8_t *in = A.alloc("in", plen + c.len, 64, guard::END), *out = A.alloc("out", plen + c.len, 64, guard::END, 7);
-                memcpy(in, data.data(), plen + c.len);
                 bool nt = sub.find("_nt") != std::string::npos;
+                uint8_t *in = A.alloc("in", plen + c.len, nt ? 64 : 1, PL(B_IN), -1, nt ? 0 : SH(B_IN)), *out = A.alloc("out", plen + c.len, nt ? 64 : 1, PL(B_OUT), 7, nt ? 0 : SH(B_OUT));
+                memcpy(in, data.data(), plen + c.len);
+                B.data_len = c.len;
+                B.inputs.push_back(kb);
+                B.inputs.push_back(ivb);
+                B.inputs.push_back(ab);
+                B.inputs.push_back(in);
+                if (sub != "pre" && sub != "precomp") B.inputs.push_back(kd);
                 int dec = sub.find("dec") != std::string::npos ? 1 : 0;
                 if (sub == "pre") {
                         fn = g->pre;
@@ -387,11 +409,16 @@ static inline int build(const Case &c, Ops &O, guard::Arena &A, Built &B, pbt::C
                 std::vector<uint8_t> k1a = k1, k2a = k2;
                 if (expanded) { k2a = a2.enc_schedule(); k1a = dec ? a1.dec_schedule() : a1.enc_schedule(); }
                 uint64_t len = c.len < 16 ? 16 : c.len;
-                uint8_t *k1b = A.alloc("k1", k1a.size(), 1, guard::END), *k2b = A.alloc("k2", k2a.size(), 1, guard::END), *twb = A.alloc("tweak", 16, 1, guard::END);
+                uint8_t *k1b = A.alloc("k1", k1a.size(), 1, PL(B_KEY), -1, SH(B_KEY)), *k2b = A.alloc("k2", k2a.size(), 1, PL(B_KD), -1, SH(B_KD)), *twb = A.alloc("tweak", 16, 1, PL(B_IV), -1, SH(B_IV));
                 memcpy(k1b, k1a.data(), k1a.size());
                 memcpy(k2b, k2a.data(), k2a.size());
                 memcpy(twb, tw.data(), 16);
-                uint8_t *in = A.alloc("in", len, 1, guard::END), *out = A.alloc("out", len, 1, guard::END, 5);
+                uint8_t *in = A.alloc("in", len, 1, PL(B_IN), -1, SH(B_IN)), *out = A.alloc("out", len, 1, PL(B_OUT), 5, SH(B_OUT));
+                B.inputs.push_back(k1b);
+                B.inputs.push_back(k2b);
+                B.inputs.push_back(twb);
+                B.inputs.push_back(in);
+                B.data_len = len;
                 pbt::expand(c.seed + 8, in, len);
                 B.outs.emplace_back(out, len);
                 args[0] = (uint64_t) k2b; args[1] = (uint64_t) k1b; args[2] = (uint64_t) twb; args[3] = len; args[4] = (uint64_t) in; args[5] = (uint64_t) out;
